@@ -336,3 +336,12 @@ def run(project, chk):
     rgb_o = env.get("rgb")
     ok = rgb_o is not None and rgb_o[0] == "call" and str(rgb_o[1]).endswith("hsl_to_rgb") and len(rgb_o[2]) == 1 and rgb_o[2][0][0] == "tuple" and len(rgb_o[2][0][1]) == 3 and list(rgb_o[2][0][1]) == [env.get("h"), env.get("s"), env.get("l")]
     chk.check(ok, "W4", fi.short, "rgb = hsl_to_rgb((h, s, l))", loc, "the foreground blended is hsl_to_rgb((h, s, l)) of the parsed components", how="value of rgb", message="the foreground that is blended is not the HSL colour of the parsed (h, s, l)")
+
+
+_run_own = run
+
+
+def run(project, chk):      # noqa: F811  (borrowed rules first: an established violation outlives a later inconclusive rule)
+    from checks._borrow import borrow
+    borrow(project, chk, "C07", {"N8"}, "W8", "the alpha of an rgba() string is read from the token the author wrote: the number tokeniser recognises `.5`-style decimals (C07's token-language rule)")
+    _run_own(project, chk)
